@@ -354,6 +354,7 @@ ENGB["c15"] = dict(files=["internal/pkg/utils/fan.go", "internal/pkg/midi/proces
 ENGB["c19"] = dict(files=["internal/pkg/midi/device/config/monitor.go"], fakes=("fsnotify",))
 _DEVFILES = ["internal/pkg/midi/device/events.go", "internal/pkg/midi/device/device.go", "internal/pkg/midi/device/open_rgb.go"]
 ENGB["c16"] = dict(files=_DEVFILES, access=_DEVFILES, sysroot=True, fakes=("openrgb",))
+ENGB["c17"] = dict(files=_DEVFILES, sysroot=True, fakes=("openrgb",))
 
 
 @check("C15")
@@ -407,4 +408,20 @@ def c16(prop, tier, t0):
         "race detection is a vector-clock happens-before check over annotated accesses to mutable Device fields, with edges only from the program's own synchronisation; exhaustive over the explored schedules",
         "timers and sleeps are virtual: each sleep/timer label may fire 'early' once (branching), afterwards only when nothing else can run; LED refresh iterations are therefore explored at arbitrary positions a bounded number of times",
         "a stalled OpenRGB server (blocking socket) and the Status()/State() readers of cmd/hidi/cli.go are not modelled",
+    ], t0)
+
+
+@check("C17")
+def c17(prop, tier, t0):
+    m, cov = engb_run(prop, tier, "c17", 0, shards=6)
+    cov.pop("preemption_bound", None)
+    cov["explanation"] = ("the real ProcessEvents with its real LED refresh loop (instrumented, virtual time, fake OpenRGB server) is walked, for 6 LED layouts, through every combination of mapping (3, one named Control) x channel "
+                          "x octave x semitone x held-key sets x MIDI-input notes on the current / another channel incl. NoteOff, NoteOn velocity 0 and panic; after every step a frame computed strictly after the step "
+                          "(two refresh iterations after an event barrier) is compared LED by LED with a reference colouring written from the statement; indicator keys must be a function of their value and distinguish values; "
+                          "the last frame after disconnect must be all red. One deterministic schedule (the frame is a function of state), 'states' = global scheduler states passed, frames_checked = (state, layout) pairs judged.")
+    return vlib.finish(prop, tier, "model_checking", m, cov, [
+        "a frame is a pure function of (configuration, LED layout, device state): one schedule per layout suffices; interleavings of the LED loop with event processing are the subject of C16",
+        "quick: channels {1,2,16}, octave -1..1; thorough: channels {1,2,3,9,15,16}, octave -2..2; semitone -1..1; 5 held-key sets; 3 mappings",
+        "where several highlights apply to one LED any of them is accepted; LEDs of unmapped keys and unknown LED names are not judged; malformed controller descriptions (no LEDs, colours/LED count mismatch) are not generated",
+        "the LED-name <-> key table is taken from the code (device.KeyToLedName)",
     ], t0)
